@@ -94,7 +94,8 @@ def run(ctx):
     for r in range(inst['rounds']):
       want_p = [float(island.frac(x)) for x in exp[which][r]]
       got_p = rec['rounds'][r]
-      exact = c['exact'] and name in ('fed_avg', 'fed_prox', 'hyp_cluster', 'apfl') and kw.get('mu', 0.0) == 0.0
+      dy = all(island.is_pow2(x[1]) and abs(x[0]) < 2**22 for rr in exp[which][:r + 1] for x in rr)
+      exact = dy and c['exact'] and name in ('fed_avg', 'fed_prox', 'hyp_cluster', 'apfl') and kw.get('mu', 0.0) == 0.0
       okp = all(np.float32(g) == np.float32(w) for g, w in zip(got_p, want_p)) if exact else np.allclose(got_p, want_p, rtol=1e-5, atol=1e-5)
       if not okp or any(np.isnan(got_p)):
         bad = f'round {r + 1}: {label} gives {got_p}, the reduction demands {[str(island.frac(x)) for x in exp[which][r]]} = {want_p}'
